@@ -80,7 +80,7 @@ pub fn c04(j: &mut Judge, v: &StepView) {
     for id in &ask_ids {
         if v.before.asks.contains_key(id) && !v.after.asks.contains_key(id) {
             if let Some(t) = j.tracker.asks.get(id).cloned() {
-                if !t.entangled && t.net.values().any(|x| !x.is_zero()) {
+                if !t.entangled && !t.tainted && t.net.values().any(|x| !x.is_zero()) {
                     let net = t.net.clone();
                     j.violate(
                         Prop::C04,
@@ -98,7 +98,7 @@ pub fn c04(j: &mut Judge, v: &StepView) {
     for id in &bid_ids {
         if v.before.bids.contains_key(id) && !v.after.bids.contains_key(id) {
             if let Some(t) = j.tracker.bids.get(id).cloned() {
-                if !t.entangled && t.net.values().any(|x| !x.is_zero()) {
+                if !t.entangled && !t.tainted && t.net.values().any(|x| !x.is_zero()) {
                     let net = t.net.clone();
                     j.violate(
                         Prop::C04,
@@ -503,7 +503,7 @@ pub fn c09(j: &mut Judge, v: &StepView) {
                     if t.fund_calls >= 3 {
                         j.nontrivial = true;
                     }
-                    if !v.after.bids.contains_key(id) && !t.entangled && t.net.values().any(|x| !x.is_zero()) {
+                    if !v.after.bids.contains_key(id) && !t.entangled && !t.tainted && t.net.values().any(|x| !x.is_zero()) {
                         let net = t.net.clone();
                         j.violate(
                             Prop::C09,
